@@ -119,7 +119,9 @@ func (p *Program) evalThreaded(c ssa.Value, b *ssa.BasicBlock, from, depth int) 
 	}
 	c = selPhi(c, b, from)
 	if from >= 0 && from < len(b.Preds) {
-		if _, isConst := c.(*ssa.Const); !isConst {
+		// a test that dominates the predecessor speaks about the value as it was
+		// then: usable only for a value that entering b does not compute anew
+		if _, isConst := c.(*ssa.Const); !isConst && !definedIn(c, b) {
 			if v, k := domTest(c, b, from); k {
 				return v, true
 			}
@@ -150,7 +152,7 @@ func (p *Program) evalThreaded(c ssa.Value, b *ssa.BasicBlock, from, depth int) 
 			} else if isNilC(r) {
 				opnd = l
 			}
-			if opnd != nil {
+			if opnd != nil && !definedIn(opnd, b) {
 				if isNil, known := domNilTest(opnd, b, from); known {
 					eq, k = isNil, true
 				}
@@ -491,3 +493,53 @@ func (fi *FuncInfo) FactsAt(in ssa.Instruction) []Atom {
 // DomEdges calls f for every conditional edge that dominates block b
 // (innermost first) until f returns true.
 func DomEdges(b *ssa.BasicBlock, f func(iff *ssa.If, succ int) bool) { domEdges(b, f) }
+
+// ClosureOf: v is a function literal used as a callee — a MakeClosure, or the
+// anonymous function itself when it captures nothing.
+func ClosureOf(v ssa.Value) *ssa.Function {
+	switch x := v.(type) {
+	case *ssa.MakeClosure:
+		f, _ := x.Fn.(*ssa.Function)
+		return f
+	case *ssa.Function:
+		if x.Parent() != nil {
+			return x
+		}
+	}
+	return nil
+}
+
+// SymAt names v as read by instruction at (phi operands that cannot reach
+// the reader are dropped; see livePhiEdges). Not cached.
+func (fi *FuncInfo) SymAt(v ssa.Value, at ssa.Instruction) *Expr {
+	return (&symCtx{fi: fi, at: at}).sym(v, 0)
+}
+
+// LivePhiEdges exposes livePhiEdges: which incoming values of ph a path
+// reaching `at` can have merged (nil = all).
+func (p *Program) LivePhiEdges(ph *ssa.Phi, at ssa.Instruction) []bool { return p.livePhiEdges(ph, at) }
+
+// NilnessAt: what the conditional edges dominating instruction at say about
+// v == nil (SSA values never change).
+func NilnessAt(v ssa.Value, at ssa.Instruction) (isNil, known bool) {
+	domEdges(at.Block(), func(iff *ssa.If, k int) bool {
+		bo, ok := iff.Cond.(*ssa.BinOp)
+		if !ok || (bo.Op != token.EQL && bo.Op != token.NEQ) {
+			return false
+		}
+		if !(bo.X == v && isNilC(bo.Y)) && !(bo.Y == v && isNilC(bo.X)) {
+			return false
+		}
+		isNil = (bo.Op == token.EQL) == (k == 0)
+		known = true
+		return true
+	})
+	return
+}
+
+// definedIn: v is computed by an instruction of block b (so every entry into
+// b produces a new value of it).
+func definedIn(v ssa.Value, b *ssa.BasicBlock) bool {
+	in, ok := v.(ssa.Instruction)
+	return ok && in.Block() == b
+}
